@@ -34,3 +34,8 @@ CHECKS['C18'] = dict(
     text='Generated decimal literals x units x omitLeadingZero compared exactly as rationals; all 4096 short hashes, a stratified sample (thorough: all 16.7M) of long hashes, colour functions and keywords re-computed independently; strings/URLs round-tripped character for character; component lists keep separators. Exploration (hash table exhaustive in thorough).',
     note='Trusted: Fraction arithmetic, my HSL formulas (CSS3 algorithm), a hand-written table of the 17 CSS 2.1 colours; tolerance 1 per channel for percentages/HSL; content with backslash, edge-escaped bare URLs and |x|>=2^33 fractions are listed findings probed by witnesses.',
 )
+CHECKS['C16'] = dict(
+    technique='property-based testing (Hypothesis): grammar-based selector generator with specificity and structure known by construction, metamorphic spellings, round trip; model-based operation sequences for selector lists',
+    text='Generated CSS3 selectors (5k quick, 400k thorough) x 4 spellings, stand-alone and attached to a sheet with namespaces: specificity and the comment-free structure of selectorText must equal values computed from the model; serialisation must be a fixpoint; list histories against a list model with invalid members. Exploration.',
+    note='Trusted: the generator-side specificity/structure computation, cssutils tokenizer as normaliser; functional pseudo-classes inside :not() excluded (finding F16-1); names without characters needing escapes.',
+)
